@@ -806,7 +806,7 @@ pub fn run(cx: &mut Ctx) {
         }
     });
     // random histories
-    let n = cx.a.n(150_000, 3_000_000);
+    let n = cx.a.n(300_000, 4_000_000);
     let quick = cx.a.quick();
     for _ in 0..n {
         cx.case("history", |c| {
